@@ -22,7 +22,7 @@ POOLS = {
     "template_locals": ["states", "parameters", "values", "shape", "dt", "t", "time", "missing_variables", "numpy", "name", "key", "value"],
     "module_names": ["state", "parameter", "monitor", "missing", "state_index", "parameter_index", "monitor_index", "rhs", "monitor_values", "init_state_values", "init_parameter_values",
                      "explicit_euler", "generalized_rush_larsen", "hybrid_rush_larsen", "missing_values"],
-    "scheme_helpers": ["s0_linearized", "ds0_dt_linearized", "linearized", "dt_linearized"],
+    "scheme_helpers": ["s0_linearized", "ds0_dt_linearized", "dss_dt_linearized", "linearized", "dt_linearized", "ds0_dt_linearised", "ds0_dt_nonlinear"],
     "python_keywords_builtins": ["lambda", "def", "None", "True", "False", "len", "int", "float", "in", "is", "if", "for", "print", "max", "min", "sum", "range", "list", "dict", "import", "as", "pass", "global", "del", "class", "return", "yield", "with", "not", "and", "or"],
     "c_keywords_libm": ["double", "register", "const", "auto", "pow", "fabs", "M_PI", "void", "static", "char", "long", "short", "unsigned", "struct", "floor", "fmod", "strcmp", "NUM_STATES", "NULL", "main", "y0", "y1", "j0", "gamma", "signgam"],
     "sympy_names": ["E", "I", "S", "N", "Q", "beta", "gamma", "zeta", "oo", "zoo", "nan", "Symbol", "Abs", "re", "im", "sign", "Piecewise", "O"],
@@ -61,6 +61,11 @@ def plan(tier, seed):
         for role in ROLES:
             for b in ("jax", "numpy"):
                 specs.append({"klass": "wide_model", "i": k, "ident": n, "role": role, "variant": "wide", "backend": b})
+                k += 1
+    for n in ["lambda", "def", "class", "None", "for", "if", "in", "is", "double", "int", "register", "const", "auto", "while", "V_m"]:
+        for role in ROLES:
+            for b in ("numpy", "jax", "c"):
+                specs.append({"klass": "keyword_and_keyword_with_suffix", "i": k, "ident": n, "role": role, "variant": "suffix_pair", "backend": b})
                 k += 1
     for n in SUBMODEL_IDENTS:
         for b in ("numpy", "jax", "c"):
@@ -157,10 +162,14 @@ def run_split_case(spec, out):
     return finish(out, text, spec)
 
 
-def model_text(n, role, variant=None):
+def model_text(n, role, variant=None, partner=None):
     P = n if role == "parameter" else "pp"
     Sx = n if role == "state" else "ss"
     I = n if role == "intermediate" else "ii"
+    if variant == "suffix_pair":
+        # a second quantity whose name is the identifier with the printers' reserved-word suffix
+        return (f"parameters(p0=0.5, {P}=1.5, {partner}=2.5)\nstates(s0=0.75, {Sx}=1.25)\n\n{I} = s0 * p0 + t + {Sx} * 0.25\nds0_dt = -s0 * {P} + {I} + time * 0.125 + {partner} * 0.0625\n"
+                f"d{Sx}_dt = {Sx} * -0.5 + s0 - {P} * 0.0625 + {I} * 0.03125 - {partner} * 0.125\n")
     if variant == "unused":
         # nothing depends on the state, not even its own derivative
         return (f"parameters(p0=0.5, pp=1.5)\nstates(s0=0.75, {Sx}=1.25)\n\nii = s0 * p0 + t\nds0_dt = -s0 * pp + ii + time * 0.125\nd{Sx}_dt = s0 * 0.5 - pp * 0.0625\n")
@@ -169,7 +178,23 @@ def model_text(n, role, variant=None):
         ws = [f"w{j}" for j in range(12)]
         return (f"parameters(p0=0.5, {P}=1.5)\nstates(s0=0.75, {Sx}=1.25, " + ", ".join(f"{w}={0.25 + 0.125 * j}" for j, w in enumerate(ws)) + f")\n\n{I} = s0 * p0 + t + {Sx} * 0.25\n"
                 f"ds0_dt = -s0 * {P} + {I} + time * 0.125\nd{Sx}_dt = {Sx} * -0.5 + s0 - {P} * 0.0625\n" + "".join(f"d{w}_dt = -{w} * 0.5 + {Sx} * {0.0625 * (j + 1)} + {I} * {P}\n" for j, w in enumerate(ws)))
-    return (f"parameters(p0=0.5, {P}=1.5)\nstates(s0=0.75, {Sx}=1.25)\n\n{I} = s0 * p0 + t + {Sx} * 0.25\nds0_dt = -s0 * {P} + {I} + time * 0.125\nd{Sx}_dt = {Sx} * -0.5 + s0 - {P} * 0.0625\n")
+    # the intermediate feeds both derivatives: whatever is emitted between them (scheme helper variables) can capture it
+    return (f"parameters(p0=0.5, {P}=1.5)\nstates(s0=0.75, {Sx}=1.25)\n\n{I} = s0 * p0 + t + {Sx} * 0.25\nds0_dt = -s0 * {P} + {I} + time * 0.125\nd{Sx}_dt = {Sx} * -0.5 + s0 - {P} * 0.0625 + {I} * 0.03125\n")
+
+
+class RenamedNames:
+    """The twin's reference under the case's identifier: only names and counts (what the C adapter needs); the
+    identifier itself may not be a Python expression (lambda, def, ...), so the text cannot be scanned directly."""
+
+    def __init__(self, tref, n):
+        ren = lambda q: q.replace(FRESH, n)
+        self.states = {ren(k): v for k, v in tref.states.items()}
+        self.params = {ren(k): v for k, v in tref.params.items()}
+        self.assigns = {ren(k): v for k, v in tref.assigns.items()}
+        self._counts = tref.counts()
+
+    def counts(self):
+        return self._counts
 
 
 def run_case(spec, ctx):
@@ -179,8 +204,9 @@ def run_case(spec, ctx):
         return run_split_case(spec, out)
     n, role, be = spec["ident"], spec["role"], spec["backend"]
     variant, opts = spec.get("variant"), dict(spec.get("opts") or {})
-    text = spec.get("text") or model_text(n, role, variant)
-    twin = model_text(FRESH, role, variant)
+    partner = n + "_" if variant == "suffix_pair" else None
+    text = spec.get("text") or model_text(n, role, variant, partner)
+    twin = model_text(FRESH, role, variant, partner)
     out["hash"] = f"{n}:{role}:{be}" + (f":{variant}" if variant else "") + "".join(f":{k_}={v}" for k_, v in sorted(opts.items()))
     if "shape" in opts:
         from gotranx.codegen.base import Shape
@@ -230,7 +256,7 @@ def run_case(spec, ctx):
             pts.append(p)
         if be == "c":
             # the C adapter looks names up through the module's own index functions
-            m.ref = RefModel.from_text(text) if True else None
+            m.ref = RenamedNames(tref, n)
         calls, meta = [], []
         for j, tp in enumerate(pts):
             mp_ = {inv(k_): v for k_, v in tp.items()}
@@ -238,7 +264,7 @@ def run_case(spec, ctx):
                 calls.append((fn, mp_, None if fn in ("rhs", "monitor_values") else 0.05, None))
                 meta.append((fn, j))
         try:
-            maps = m.maps(RefModel.from_text(text) if be == "c" else None)
+            maps = m.maps(RenamedNames(tref, n) if be == "c" else None)
             rs = m.run(calls)
         except Exception as exc:
             out["violations"].append({"kind": "call_machinery_fails", "subkind": role, "detail": {"ident": n, "role": role, "backend": be, "exc": f"{type(exc).__name__}: {exc}"[:200]}})
